@@ -60,6 +60,15 @@ def gen(rng, i):
     for _ in range(n):
         jobs.append({"S": rng.choice([0, 0, 0, 100, 350]), "D": rng.choice([200, 300, 300, 700]),
                      "K": rng.choice([None, None, None, 50, 320, 400]), "C": rng.random() < 0.4})
+    if rng.random() < 0.2:
+        # the count callable answers a, later b, and only then starts to raise: "the last value stays in force" must
+        # mean b; submissions arrive while it is raising
+        a, b = rng.choice([(3, 1), (1, 3), (2, 1), (1, 2), (3, 2)])
+        t1, t2 = rng.choice([(100, 300), (150, 400)])
+        count = {"script": [[0, a], [t1, b], [t2, "raise"]]}
+        block = False
+        jobs = [{"S": rng.choice([t1 + 20, t2 + 10, t2 + 10, t2 + 50]), "D": rng.choice([300, 700]), "K": None,
+                 "C": False} for _ in range(rng.choice([3, 4, 5]))]
     fl = "manual" if i % 2 == 0 else "pool"
     return {"flavour": fl, "count": count, "block": block, "jobs": jobs,
             "horizon": 36000 if isinstance(count, dict) else 2500, "workers": rng.choice([1, 2, 4])}
